@@ -7,15 +7,19 @@ ZOO = "legacy"
 
 def classify_line(ln, outcome, clause, mv=None):
     """known iff the observed post-state is exactly the one Legacy.tla predicts and the model's error left effects behind
-    by design: out of the attach phase (partial-attach-effects), or out of ASTTransformer.execute after earlier
-    replacements (transformer-partial-effects).  A visitor transformation that leaves effects is not on file."""
+    by design: out of the attach phase (partial-attach-effects), out of ASTTransformer.execute after earlier
+    replacements (transformer-partial-effects), or out of a visitor run on a detached receiver with attached children
+    (visitor-partial-effects).  A visitor run on an attached receiver that leaves effects is not on file."""
     if mv is None or not (mv["conform"] and mv["partial"]):
         return None
     kind = ln["op"]["op"]
     if kind == "texec":
         return "transformer-partial-effects"
     if kind == "tvisit":
-        return None
+        # a visitor works on a clone of an *attached* receiver and is atomic there (LegacyMC: C19VisitorAtomic); a
+        # *detached* receiver is visited in place, and its attached children are cloned and replaced one by one
+        recv = ln["pre"].get(f"h{ln['op']['a']}")
+        return "visitor-partial-effects" if recv is not None and recv["det"] else None
     return "partial-attach-effects"
 
 
